@@ -85,7 +85,19 @@ def run(ctx, rep):
                 if ci is not None and ci.op == 'call' and ci.callee == 'nsync_time_cmp' and IR.is_int(b) and IR.ival(b) == 0 and p in pred_ok:
                     return ci
             return None
-        notified_path = tcmp(('sle',)) is not None and tcmp(('sgt',)) is None     # cancel_time <= 0 : already notified
+        # cancel_time <= 0 : already notified.  When several comparisons of a note time with zero guard this definition (an unlocked pre-check
+        # followed by the re-check under note_mu), the innermost one - the comparison dominated by all the others - is the current knowledge
+        from ..cfg import cfg_of as _cfg_of
+        tc = []
+        for p_, a_, b_ in gs:
+            ci_ = fn.imap.get(a_) if isinstance(a_, str) else None
+            if ci_ is not None and ci_.op == 'call' and ci_.callee == 'nsync_time_cmp' and IR.is_int(b_) and IR.ival(b_) == 0 and p_ in ('sle', 'sgt', 'slt', 'sge', 'eq', 'ne'):
+                tc.append((p_, ci_))
+        inner = None
+        for p_, ci_ in tc:
+            if all(_cfg_of(fn).inst_dominates(cj, ci_) for _, cj in tc):
+                inner = (p_, ci_)
+        notified_path = inner is not None and inner[0] in ('sle', 'slt', 'eq')
         timed_out = any(p == 'eq' and IR.is_int(b) and IR.uval(b) == ET for p, a, b in gs)
         not_nearer = any((p == 'eq' and IR.is_int(b) and IR.ival(b) == 0 and _is_flag(fn, a)) or (p == 'ne' and False) for p, a, b in gs)
         notifies = any(j.op == 'call' and j.callee == 'nsync_note_notify' for j in fn.bmap[pb].insts)
